@@ -255,9 +255,10 @@ def insertSorted (lt : Row → Row → Bool) (x : Row) : List Row → List Row
 def sortRowsBy (lt : Row → Row → Bool) (l : List Row) : List Row :=
   l.foldr (fun x acc => insertSorted lt x acc) []
 
-/-- Go: `TableData.sortRows`: primary-key order (`pkLess`). -/
+/-- Go: `TableData.sortRows`: order by the primary-key columns taken in *schema* order
+(`pkLess` over the columns flagged `PrimaryKey`, not over `PkOrdinals`). -/
 def sortRows (sch : Schema) (t : List Row) : List Row :=
-  sortRowsBy (ordLt sch (sch.pk.map (fun c => (c, false)))) t
+  sortRowsBy (ordLt sch (((List.range sch.cols.length).filter (fun c => sch.pk.contains c)).map (fun c => (c, false)))) t
 
 /-- Go: `pkTableEditAccumulator.ApplyEdits`: deletes, adds, `sortRows`. The stored order is what a
 later table scan (UPDATE / DELETE source) sees. -/
@@ -504,8 +505,11 @@ def implStmtE (sch : Schema) (t : List Row) : Stmt → Outcome × Ed
     | .ok (e, a, m) => (.ok a m, stmtComplete sch e)
     | .error _ => (.dup, mkEd t)
   | .delete wh ord lim =>
-    let rows := source sch t wh ord lim
-    (.ok rows.length 0, stmtComplete sch (implDelete sch (stmtBegin (mkEd t)) rows))
+    -- Go: analyzer `deleteToTruncate`: a DELETE whose child is the bare table becomes TRUNCATE
+    if wh.isEmpty && ord.isEmpty && lim.isNone then (.ok t.length 0, mkEd [])
+    else
+      let rows := source sch t wh ord lim
+      (.ok rows.length 0, stmtComplete sch (implDelete sch (stmtBegin (mkEd t)) rows))
 
 def implStmt (sch : Schema) (t : List Row) (s : Stmt) : Outcome × List Row :=
   let (o, e) := implStmtE sch t s
